@@ -272,7 +272,7 @@ SIGINFO_FIELDS = [SIG_TYPE, KEY_LOCATOR, SIG_NONCE, SIG_TIME, SIG_SEQ]
 KEYLOC_FIELDS = [NAME, KEY_DIGEST]
 
 
-def match_fields(buf, start, end, fields, ignore_critical=False, repeated=()):
+def match_fields(buf, start, end, fields, ignore_critical=False, repeated=(), known_in_order=False):
     """NDN evolvability rule: a recognised field at or after the cursor is consumed; anything else is rejected
     if critical (odd type), skipped otherwise.  -> dict type -> element (or list for repeated)."""
     out = {}
@@ -281,6 +281,9 @@ def match_fields(buf, start, end, fields, ignore_critical=False, repeated=()):
         typ = el[0]
         i = next((j for j in range(pos, len(fields)) if fields[j] == typ), None)
         if i is None:
+            if known_in_order and typ in fields:
+                # (NDNLPv2: its own header fields at most once and in order, whatever is done with unknown ones)
+                raise T.Malformed(f'field {typ} repeated or out of order')
             if typ & 1 and not ignore_critical:
                 raise T.Malformed(f'critical type {typ} unrecognised, repeated or out of order')
             continue
@@ -412,7 +415,7 @@ def strict_lp(wire, allow_frag=False):
     el = T.single(buf)
     if el[0] != LP_PACKET:
         raise T.Malformed('not LpPacket')
-    f = match_fields(buf, el[2], el[3], LP_FIELDS, ignore_critical=True)
+    f = match_fields(buf, el[2], el[3], LP_FIELDS, ignore_critical=True, known_in_order=True)
     out = {'nack': None, 'nack_reason': None, 'non_discovery': 0x034C in f, 'cache_policy_type': None}
     for t, nm in LP_INT_FIELDS.items():
         out[nm] = _nni(buf, f[t]) if t in f else None
